@@ -476,6 +476,9 @@ func (mc *modelCtx) startSummaries(a *OpArgs, st MState, idx int, fallback bool)
 
 func (mc *modelCtx) apply(prev MState, op *Op) []MOutcome {
 	a := &op.Args
+	if a.Invalid {
+		return reject("argument that would yield an invalid file")
+	}
 	y, m, d := mc.clk.targetDate(a)
 	switch op.Kind {
 	case "track":
@@ -633,6 +636,9 @@ func appendSummary(cur, add []string) []string {
 // (for processes that were killed).
 func (mc *modelCtx) applyPause(prev MState, op *Op, t0 time.Time, ticks []time.Time) (final []MOutcome, partial []MState) {
 	a := &op.Args
+	if a.Invalid {
+		return reject("argument that would yield an invalid file"), nil
+	}
 	if a.Extend && a.Summary != nil {
 		return reject("--extend conflicts with --summary"), nil
 	}
